@@ -42,12 +42,17 @@ def jobs(tier):
     for bg in ("tuple", "str"):
         for i in range(4):
             js.append(dict(kind="hsla-str", bg=bg, shard=[i, 4, 14]))
+    js.append(dict(kind="numre"))   # the numeral-pattern lemma the token abstraction rests on (shared with C07)
     js.append(dict(kind="bg-rgba"))
     js.append(dict(kind="bg-hsla"))
     return js
 
 
 def run_job(job):
+    if job["kind"] == "numre":
+        out = runner.JobOut(job)
+        c07._numre_job(job, out, check_id=ID)
+        return out.d
     m = load_core()
     eng = symx.Engine()
     st = stubs.Stubs(eng)
@@ -220,7 +225,7 @@ def _ladder(job):
                        tl=Fraction(round(l * 100)), large=False)
 
 
-REPLAYS = {"pair": replay_pair}
+REPLAYS = {"pair": replay_pair, "numre": c07.replay_numre}
 LADDER = {"pair": _ladder}
 
 
